@@ -34,6 +34,9 @@ fn show_list<I: Iterator<Item = isize>>(it: I) -> String {
 fn show_fdopt(d: Option<FiniteDomain>) -> String {
     match d {
         None => "none".to_string(),
+        Some(FiniteDomain::Interval(r)) if (*r.end() as i128) - (*r.start() as i128) > 100 => {
+            format!("{{{}..{}}}", r.start(), r.end())
+        }
         Some(d) => show_list(d.iter()),
     }
 }
